@@ -17,6 +17,7 @@ Commands:
   ser                             → ok hdr=<hex> body=<hex> | error <kind>
   consistent                      → true | false
   defaults                        → ok            (tree := the table's defaults)
+  settree H{…} B[…]               → ok            (tree := the given canonical text)
 -/
 open Aoe Aoe.Codec Aoe.Bytes
 
@@ -145,6 +146,27 @@ def rootOf (st : CState) (path : String) : Option (Val × List Step × (Val → 
       | _ => none)
   else none
 
+/-- first top-level field whose consistency check fails: `(section index (0 = header), field index)` -/
+def firstBadRec (fs : List (Nat × FCodec)) (γ : Env) (vs : List Val) (i : Nat) : Option Nat :=
+  match fs, vs with
+  | [], [] => none
+  | (nm, f) :: fs, v :: vs => if f.okB γ v then firstBadRec fs (γ.push true nm v) vs (i + 1) else some i
+  | _, _ => some i
+
+def firstBad (t : Table) (tr : Tree) : String :=
+  match firstBadRec t.header.fields {} tr.header 0 with
+  | some i => s!"h.{i}"
+  | none =>
+    let rec go (ss : List Section) (done : List (Nat × Rec)) (ts : List Val) (k : Nat) : String :=
+      match ss, ts with
+      | [], [] => "none"
+      | s :: ss, .strct vs :: ts =>
+        match firstBadRec s.fields { secs := done, root := [], self := [] } vs 0 with
+        | some i => s!"b.{k}.{i} ({Aoe.Generated.nameOf s.name}.{(s.fields[i]?.map (fun p => Aoe.Generated.nameOf p.1)).getD "?"})"
+        | none => go ss (done ++ [(s.name, mkRec s.fields vs)]) ts (k + 1)
+      | _, _ => s!"b.{k} shape"
+    go t.body [(t.header.name, mkRec t.header.fields tr.header)] tr.body 0
+
 def codecStep (st : CState) (ws : List String) : Option (CState × String) :=
   match ws with
   | ["table", v] =>
@@ -190,10 +212,18 @@ def codecStep (st : CState) (ws : List String) : Option (CState × String) :=
       | .error e, _ => some (st, "error " ++ showErr e)
       | _, .error e => some (st, "error " ++ showErr e)
     | none => some (st, "bad-op")
+  | ["whybad"] =>
+    match st.table with
+    | some t => some (st, firstBad t st.tree)
+    | none => some (st, "bad-op")
   | ["consistent"] =>
     match st.table with
     | some t => some (st, toString (consistentB t st.tree))
     | none => some (st, "bad-op")
+  | ["settree", h, b] =>
+    match readVal (h.drop 1).toString, readVal (b.drop 1).toString with
+    | some (.strct hv), some (.list bv) => some ({ st with tree := { header := hv, body := bv } }, "ok")
+    | _, _ => some (st, "bad-op")
   | ["defaults"] =>
     match Aoe.Generated.defaultsOf st.version with
     | some (h :: b) => some ({ st with tree := { header := h, body := b.map Val.strct } }, "ok")
